@@ -449,7 +449,12 @@ def check_content_unwraps(facts, res, cg):
                         idx = [y for y in walk(ot) if (y[0] == "call" and callee_name(y) == "index" and y[4] is not None and
                                                        (y[4].impl_self or "") in ("revision::Revision", "melda::DeltaId")) or
                                (y[0] == "field" and y[2] == "index" and len(y) > 3 and y[3] in ("revision::Revision",))]
-                        if idx:
+                        bounded = any(l.kind == "cmp" and any(
+                            (y[0] == "call" and callee_name(y) == "index") or (y[0] == "field" and y[2] == "index") for y in walk(l.term))
+                            for l in lits_of(m, blk.idx, facts))
+                        if idx and bounded:
+                            res.instance("H8", "%s: index arithmetic at line %s is dominated by an explicit bound test" % (m.path, st.line), m.loc(st.line))
+                        if idx and not bounded:
                             owner_fn = facts.body(m.parent).path if m.kind == "closure" and m.parent and facts.body(m.parent) is not None else m.path
                             res.violation("H8", "%s|index-arithmetic-can-overflow" % owner_fn,
                                           "%s (reachable from reload / refresh) computes `%s` on an identifier index with an overflow check that panics: a stored item "
